@@ -70,7 +70,9 @@ def qname_errors(ns, qname, is_attr):
     codes = set()
     if qname is None or not is_name(qname):
         codes.add(INVALID_CHAR)
-        if qname is None or qname == '': return codes, None, None
+        if qname is None or qname == '':
+            codes.add(NAMESPACE)      # the empty string is neither a Name nor a QName
+            return codes, None, None
     prefix, local = None, qname
     if ':' in qname:
         parts = qname.split(':')
@@ -336,6 +338,7 @@ class World(object):
         for k in kids:
             if k.t not in allowed: codes.add(HIERARCHY)
         if c.t != FR and c.t not in allowed: codes.add(HIERARCHY)
+        if not allowed: codes.add(HIERARCHY)      # a node type that allows no children at all
         if any(a is c for a in ancestors_or_self(p)): codes.add(HIERARCHY)
         if p.t == DOC:
             for tt in (EL, DT):
@@ -354,10 +357,10 @@ class World(object):
         unspec = None
         if ref is c:
             unspec = 'insertBefore(x, x) is implementation dependent (DOM3 Core, Node.insertBefore)'
-        if p.t == DOC and c.parent is p and c.t in (EL, DT) and not (codes - {HIERARCHY}):
+        if p.t == DOC and c.parent is p and c.t in (EL, DT):
             # moving the document element / doctype inside its own document: the specification forbids "a second"
             # Element/DocumentType child but says "if newChild is already in the tree it is first removed"; Xerces refuses.
-            return Res.err({HIERARCHY}, unspec='re-inserting the existing document element/doctype into its document')
+            return Res.err(codes | {HIERARCHY}, unspec='re-inserting the existing document element/doctype into its document')
         if self._ws_text_under_document(p, c) and codes == {HIERARCHY} and not any(a is c for a in ancestors_or_self(p)):
             # Xerces extension: white-space-only Text is accepted as a child of Document
             only_text_problem = self._insert_codes_without_text(p, c, ref)
@@ -395,8 +398,8 @@ class World(object):
         if old.parent is not p or old.t == AT: codes.add(NOT_FOUND)
         unspec = None
         if new is old: unspec = 'replaceChild(x, x) is implementation dependent (DOM3 Core, Node.replaceChild)'
-        if p.t == DOC and new.parent is p and new.t in (EL, DT) and new is not old and not (codes - {HIERARCHY}):
-            return Res.err({HIERARCHY}, unspec='re-inserting the existing document element/doctype into its document')
+        if p.t == DOC and new.parent is p and new.t in (EL, DT) and new is not old:
+            return Res.err(codes | {HIERARCHY}, unspec='re-inserting the existing document element/doctype into its document')
         if self._ws_text_under_document(p, new) and codes == {HIERARCHY} and not any(a is new for a in ancestors_or_self(p)):
             saved = [(k, k.t) for k in (new.children if new.t == FR else [new]) if k.t == TX]
             for k, _ in saved: k.t = CM
